@@ -876,3 +876,7 @@ mod tests {
         }
     }
 }
+
+#[cfg(all(test, pendulum_project_ntpd_rs_verif))]
+#[path = "/verif/harness/ntp_proto/kalman.rs"]
+pub(crate) mod verif_hook;
